@@ -588,7 +588,11 @@ func writeReplay(eng *Engine, dir, prop string, o *Obligation, idx int, fnKey, r
 			rep["replayed"] = true
 			rep["failing_input"] = in
 			rep["observed"] = out
-			suffix = ""
+			if m, ok := in.(map[string]interface{}); ok {
+				suffix = fmt.Sprintf(" failing-input: %v -> %v (replayed on the real code)", m["input"], m["result"])
+			} else {
+				suffix = ""
+			}
 		} else if out != "" {
 			rep["replay_comment"] = out
 		}
